@@ -131,12 +131,17 @@ CHECKS = {
                   'ordering-complete value grid',
         category='other', design_ref='DESIGN.md section 4, C13',
         text='Exhaustive over the abstraction: every public StopWatch '
-             'method x every abstract state (state tag, stopped timestamp, '
-             'duration, 0/1/2 splits, arguments). The one-step transition '
-             'table is extracted from the source without running it and '
-             'must equal the table the property states; a typestate machine '
-             'is determined by its one-step table, so this covers every '
-             'call sequence. Also raise-before-write and the clock source.',
+             'method after every prefix of public calls that reaches a '
+             'state (new / started / stopped / resumed, 0-2 splits, queries '
+             'in between, restarted) x arguments x duration, with the clock '
+             'a sequence of symbols: the result and the watch afterwards as '
+             'seen through has_started / has_stopped / splits / elapsed must '
+             'equal the watch of the property statement on every ordering '
+             'of the readings (independent of how the watch stores its '
+             'state). While the watch keeps the pinned private layout the '
+             'one-step transition table over abstract states is extracted '
+             'as well (a typestate machine is determined by it). Also '
+             'raise-before-write and the clock source.',
         note='Assumes Python semantics as modelled by sa/core/absint.py; '
              'float rounding of clock arithmetic is not decided; the '
              'reference table is in sa/rules/c13.py (class Ref).'),
